@@ -16,7 +16,7 @@ TV = "translation_validation"
 
 CLAIMS = {
     "C01": dict(level=PV, ref="§7 C01, §12.1",
-        text="61 kernel-checked theorems (25 in Properties/C01, 36 in Properties/C01Ext), none open, about a hand-written executable model of Metadata.__lt__, "
+        text="74 kernel-checked theorems (25 in Properties/C01, 49 in Properties/C01Ext), none open, about a hand-written executable model of Metadata.__lt__, "
              "Cell.__lt__, IncrementalCell.__lt__, the Triangle constructor and the public operations: strict total "
              "order on canonical metadata, sortedness, permutation, input-order independence for EVERY permutation "
              "(ofCells_perm_invariant, ofCells_coords_perm_invariant), contiguity and order of slices, and closure of "
@@ -27,7 +27,10 @@ CLAIMS = {
              "| & - ^, sum, t[i], loose_period_merge, shift_origin, drop_off_diagonals, TriangleSlice conversions, "
              "make_pred_triangle_with_init, weight_geometric_decay, the Berquist-Sherman adjustments, disaggregate_development, "
              "disaggregate, and the wide / long / array-frame / Matrix reader-after-writer composites; fromWideRows_canonical etc.: "
-             "EVERY accepted table yields a canonical triangle) - the 34 being (to_incremental, to_cumulative, aggregate, summarize, merge, coalesce, "
+             "EVERY accepted table yields a canonical triangle), and run4_canonical over 70 (adding the statics / full array-frame / "
+             "array_triangle_builder readers, the rich-matrix and triangle_to_matrix-with-options round trips, __getitem__ with any index "
+             "object on Triangle and TriangleSlice, make_pred_triangle(_complement), and the BINARY round trip through a Cell<->RawCell "
+             "bridge with an exact IEEE-754 encoder: fromBinary_canonical holds for every byte string the reader accepts) - the 34 being (to_incremental, to_cumulative, aggregate, summarize, merge, coalesce, "
              "add_statics, period_merge, make_right_triangle, make_right_diagonal, fill_forward_gaps, backfill, full "
              "clip, 3-index getitem, split, slices, convert_currency, disaggregate_experience, "
              "accident_quarter_to_policy_year, blend, thin, bootstrap, moment_match, JSON round trip, ...), by "
